@@ -70,7 +70,7 @@ rounded_udiv_128_by_48 (uint64_t  hi,
                         uint64_t *result_hi)
 {
     uint64_t tmp, remainder, result_lo;
-    assert(div < ((uint64_t)1 << 48));
+    assert(div <= ((uint64_t)1 << 48));
 
     remainder = hi % div;
     *result_hi = hi / div;
